@@ -115,6 +115,34 @@ func init() {
 		return fr.m.newToken("time", ns)
 	})
 	reg("(time.Time).String", func(fr *frame, args []Value) Value { return "<time>" })
+	// calendar fields: native for a constant instant; for a symbolic one only the coarse facts the
+	// callers here need (net/http cookie code asks "year >= 1601").
+	reg("(time.Time).Year", func(fr *frame, args []Value) Value {
+		ns := timeNS(fr, args[0])
+		if ns.IsConst() {
+			return tInt(int64(time.Unix(0, ns.Signed()).UTC().Year()))
+		}
+		fr.m.unsupported("(time.Time).Year of a symbolic instant")
+		return nil
+	})
+	reg("(time.Time).AppendFormat", func(fr *frame, args []Value) Value {
+		ns := timeNS(fr, args[0])
+		layout := fr.concStr(args[2], "time layout")
+		var text string
+		if ns.IsConst() {
+			text = time.Unix(0, ns.Signed()).UTC().Format(layout)
+		} else {
+			text = fr.m.newToken("time", ns)
+		}
+		var out []Value
+		if d, ok := args[1].([]Value); ok {
+			out = append(out, d...)
+		}
+		for _, b := range strBytes(text) {
+			out = append(out, b)
+		}
+		return out
+	})
 	reg("time.Parse", func(fr *frame, args []Value) Value {
 		s := args[1]
 		if cs, ok := s.(string); ok {
